@@ -1,6 +1,9 @@
 """C18 - routing picks exactly one destination; route prefixes push and pop inversely."""
+import contextlib
 import itertools
 import queue as queue_mod
+import signal
+import threading
 
 from hypothesis import strategies as st
 
@@ -14,6 +17,15 @@ RULE = ("Model-based histories: Hypothesis draws a router configuration (fallbac
         "every sink's log is compared with a reference router (prefix rule > id rule > fallback > raise). "
         "Second generator: events pushed through 1..3 nested StreamToQueue(code) and popped by nested "
         "routers with consuming rules must arrive unchanged. Also: any positional prefix of status(), omitted defaults and flags given as 1/0, sinks that compare equal and cannot be hashed, rules added mid-run must have been started when add_rule returns. "
+        "Also: the three spellings of add_rule and of the constructor (flag by keyword, flag positional, everything by "
+        "keyword) with the constructor's flag given as 1/0 too; segments and test ids that are neighbours of a rule "
+        "(case, blank, regex wildcard, dotted child, an id that equals a prefix), half of the events aimed at a "
+        "registered prefix or a near miss of it; a fallback sink that registers a rule and hands the event to the router "
+        "again from inside its own status(), and the rule registered from inside startTestRun/stopTestRun is then routed "
+        "to; every delivered field keeps its type (tags stay a set, bool stays bool) and a timestamp its utcoffset "
+        "(aware non-UTC, naive and microsecond stamps are drawn); StreamToQueue is used for a second run and after "
+        "stopTestRun, with omitted defaults; a history that does not return is reported as a hang. Small exhaustive "
+        "grids pin all of these at every seed. "
         "Non-trivial: an event matched by both a prefix "
         "rule and an id rule, or a route code of >= 2 segments through a consuming rule, or a rule added "
         "mid-run; distinct = distinct canonical history.")
@@ -21,11 +33,31 @@ ASSUMPTIONS = [
     "a prefix / test id is registered at most once per router (re-registration is documented as undefined)",
     "a sink object is registered for start/stop at most once (twice would legitimately double the calls)",
     "well-formed run brackets: startTestRun and stopTestRun alternate",
+    "a rule registered from inside a sink's stopTestRun, i.e. while the run is being closed, may be treated either "
+    "way: the new sink gets startTestRun and stopTestRun in that same dispatch, or neither; only the unbalanced "
+    "outcomes are violations (the statement does not say whether the run is still 'in progress' at that point)",
+    "invalid rules (unknown policy, an argument the policy does not take, a route prefix of more than one step) are "
+    "rejected with some exception and without any effect; the statement is silent about them, the add_rule docstring "
+    "promises the first two and the code the third - a router that gave multi-step prefixes a meaning would need a "
+    "new model",
+    "add_rule(sink, policy, do_start_stop_run, **policy_args) and StreamResultRouter(fallback, do_start_stop_run) "
+    "accept their parameters positionally or by these names (the documented signatures)",
+    "a field is 'unchanged' when it compares equal, has the same type (for test_tags: is still a set or frozenset) "
+    "and, for a timestamp, the same utcoffset",
+    "wall clock, one place: a single history (milliseconds of work) that has not returned after 30 s is reported as "
+    "a hang (start-stop:hang); after one such hang the limit drops to 3 s so that shrinking terminates",
 ]
 
-SEGS = ["0", "1", "x", "01", "10", "worker-1", "a.b"]
-ROUTE = st.one_of(st.none(), st.lists(st.sampled_from(SEGS), min_size=1, max_size=4).map("/".join))
-EVENT = streams.event(routes=ROUTE)
+SEGS = ["0", "1", "x", "01", "10", "worker-1", "a.b", "W1", "é"]          # the rule prefixes
+# a segment that must NOT be matched by the rule for the key (blank, regex wildcard, case, accent, truncation)
+NEIGHBOUR = {"0": "00", "1": " 1", "x": " x", "01": "1", "10": "1O", "worker-1": "worker", "a.b": "axb", "W1": "w1",
+             "é": "e"}
+EV_SEGS = SEGS + ["axb", " x", "w1"]
+IDS = (None, "a", "a.b", "0", "c")          # "a.b" and "0" are route segments as well; "a.b" is a dotted child of "a"
+RE_ID = "c"                                 # the id of the rule a sink registers re-entrantly
+STAMPS = (None, 0, 1, "tz", "naive", "usec")
+ROUTE = st.one_of(st.none(), st.lists(st.sampled_from(EV_SEGS), min_size=1, max_size=4).map("/".join))
+EVENT = streams.event(ids=IDS, routes=ROUTE, stamps=STAMPS)
 NSINK = 4
 
 
@@ -33,15 +65,23 @@ NSINK = 4
 def s_history(draw):
     cfg = {"fallback": draw(st.booleans()), "fb_dssr": draw(st.booleans()), "omit_defaults": draw(st.booleans()),
            "equal_sinks": draw(st.sampled_from([False, False, True])),
-           "truthy_flags": draw(st.sampled_from([False, False, True]))}       # flags given as 1 / 0 instead of True / False
-    if cfg["fallback"] and cfg["fb_dssr"] and draw(st.integers(0, 3)) == 0:
-        # the fallback sink itself registers one more rule from inside its startTestRun / stopTestRun
-        cfg["reentrant"] = {"when": draw(st.sampled_from(["start", "stop"])), "sink": 3, "test_id": "zz"}
+           "truthy_flags": draw(st.sampled_from([False, False, True])),       # flags given as 1 / 0 instead of True / False
+           "ctor": draw(st.sampled_from(["pos", "pos", "kw", "pos2"]))}       # how the constructor is spelled
+    used_prefix, used_ids = [], set()
+    if cfg["fallback"]:
+        r = draw(st.integers(0, 7))
+        if cfg["fb_dssr"] and r < 2:
+            # the fallback sink itself registers one more rule from inside its startTestRun / stopTestRun
+            cfg["reentrant"] = {"when": draw(st.sampled_from(["start", "stop"])), "sink": 3, "test_id": RE_ID}
+        elif r == 2:
+            # ... or from inside its status(), and hands the event to the router again (the class docstring's
+            # "create them as-needed from the fallback handler")
+            cfg["reentrant"] = {"when": "status", "sink": 3, "test_id": RE_ID}
     ops = []
-    used_prefix, used_ids = set(), set()
     dssr_sinks = {0} if cfg["fallback"] and cfg["fb_dssr"] else set()
     if "reentrant" in cfg:
         dssr_sinks.add(cfg["reentrant"]["sink"])      # it will be registered for start/stop by the fallback sink
+        used_ids.add(RE_ID)                           # ... under this id, which no other rule may take
     in_run = False
     n = draw(st.integers(1, 14))
     for _ in range(n):
@@ -55,15 +95,15 @@ def s_history(draw):
             if not free:
                 continue
             p = draw(st.sampled_from(free))
-            used_prefix.add(p)
+            used_prefix.append(p)
             sink = draw(st.integers(0 if cfg["fallback"] else 1, NSINK - 1))
             dssr = draw(st.booleans()) and sink not in dssr_sinks
             if dssr:
                 dssr_sinks.add(sink)
             ops.append({"op": "route", "prefix": p, "consume": draw(st.booleans()), "sink": sink, "dssr": dssr,
-                        "explicit_dssr": draw(st.booleans())})
+                        "explicit_dssr": draw(st.booleans()), "spell": draw(st.sampled_from(["kw", "kw", "pos", "named"]))})
         elif kind == "id":
-            free = [i for i in (None, "a", "b", "c") if i not in used_ids]
+            free = [i for i in IDS if i not in used_ids]
             if not free:
                 continue
             i = draw(st.sampled_from(free))
@@ -72,12 +112,21 @@ def s_history(draw):
             dssr = draw(st.booleans()) and sink not in dssr_sinks
             if dssr:
                 dssr_sinks.add(sink)
-            ops.append({"op": "id", "test_id": i, "sink": sink, "dssr": dssr, "explicit_dssr": draw(st.booleans())})
+            ops.append({"op": "id", "test_id": i, "sink": sink, "dssr": dssr, "explicit_dssr": draw(st.booleans()),
+                        "spell": draw(st.sampled_from(["kw", "kw", "pos", "named"]))})
         elif kind == "run":
             ops.append({"op": "stop" if in_run else "start"})
             in_run = not in_run
         else:
-            ops.append({"op": "ev", "ev": draw(EVENT), "omit_defaults": draw(st.booleans()),
+            ev = draw(EVENT)
+            if used_prefix and draw(st.booleans()):
+                # aim the event at a registered prefix, or at a near miss of one
+                p = draw(st.sampled_from(used_prefix))
+                if draw(st.integers(0, 3)) == 0:
+                    p = NEIGHBOUR[p]
+                rest = ev["route_code"].split("/")[1:] if ev["route_code"] else []
+                ev = dict(ev, route_code="/".join([p] + rest))
+            ops.append({"op": "ev", "ev": ev, "omit_defaults": draw(st.booleans()),
                         "npos": draw(st.sampled_from([0, 0, 1, 2, 3, 9, 10]))})       # how many leading parameters are passed positionally
     if in_run and draw(st.booleans()):
         ops.append({"op": "stop"})
@@ -88,7 +137,60 @@ DEFAULTS = dict(test_id=None, test_status=None, test_tags=None, runnable=True, f
                 file_bytes=None, eof=False, mime_type=None, route_code=None, timestamp=None)
 
 
+class _Hang(BaseException):
+    """Raised by the alarm handler inside a history that does not return."""
+
+
+_HANG_LIMIT = [30.0]
+
+
+@contextlib.contextmanager
+def _watchdog():
+    """A deadlock inside the router (say a non-re-entrant lock around add_rule and startTestRun) must end as a
+    reported case, not as a check that never returns.  Main thread only (signals)."""
+    if not hasattr(signal, "setitimer") or threading.current_thread() is not threading.main_thread():
+        yield
+        return
+
+    def on_alarm(signum, frame):
+        raise _Hang()
+    old = signal.signal(signal.SIGALRM, on_alarm)
+    signal.setitimer(signal.ITIMER_REAL, _HANG_LIMIT[0])
+    try:
+        yield
+    finally:
+        signal.setitimer(signal.ITIMER_REAL, 0)
+        signal.signal(signal.SIGALRM, old)
+
+
+def strict_diff(live, w):
+    """Fields of a delivered event (the live argument objects) that compare equal to the model's but are not
+    'unchanged': another type, tags that are no longer a set, a timestamp moved to another offset."""
+    out = []
+    for f in streams.FIELDS:
+        a, b = live[f], w[f]
+        if f == "test_tags":
+            if b is not None and not isinstance(a, (set, frozenset)):
+                out.append(f)
+        elif type(a) is not type(b):
+            out.append(f)
+        elif f == "timestamp" and a is not None and a.utcoffset() != b.utcoffset():
+            out.append(f)
+    return out
+
+
 def run_history(spec):
+    try:
+        with _watchdog():
+            return _run_history(spec)
+    except _Hang:
+        limit = _HANG_LIMIT[0]
+        _HANG_LIMIT[0] = 3.0
+        return Case([V("start-stop", "hang", "the history did not return within %g s (a deadlock when a sink calls "
+                       "add_rule from inside startTestRun/stopTestRun/status?)" % limit)], False, ["hang"])
+
+
+def _run_history(spec):
     from testtools.testresult.real import StreamResultRouter
     cfg = spec["cfg"]
     vs = []
@@ -110,6 +212,8 @@ def run_history(spec):
                 if re_cfg["when"] == when and not fired:
                     fired.append(when)
                     router.add_rule(sinks[re_cfg["sink"]], "test_id", test_id=re_cfg["test_id"], do_start_stop_run=True)
+                    return True
+                return False
 
             def startTestRun(self):
                 streams.Recorder.startTestRun(self)
@@ -118,35 +222,105 @@ def run_history(spec):
             def stopTestRun(self):
                 streams.Recorder.stopTestRun(self)
                 self._maybe("stop")
+
+            def status(self, test_id=None, test_status=None, test_tags=None, runnable=True, file_name=None,
+                       file_bytes=None, eof=False, mime_type=None, route_code=None, timestamp=None):
+                streams.Recorder.status(self, test_id, test_status, test_tags, runnable, file_name, file_bytes, eof,
+                                        mime_type, route_code, timestamp)
+                if test_id == re_cfg["test_id"] and self._maybe("status"):
+                    # now that there is a rule for it, the event goes to the router once more, as it was received
+                    router.status(test_id=test_id, test_status=test_status, test_tags=test_tags, runnable=runnable,
+                                  file_name=file_name, file_bytes=file_bytes, eof=eof, mime_type=mime_type,
+                                  route_code=route_code, timestamp=timestamp)
         sinks[0] = Reentrant("s0")
-    if cfg["fallback"] and cfg["fb_dssr"] and cfg.get("omit_defaults"):
-        router = StreamResultRouter(sinks[0])            # do_start_stop_run defaults to True
-    elif cfg["fallback"]:
-        router = StreamResultRouter(sinks[0], do_start_stop_run=cfg["fb_dssr"])
-    else:
-        router = StreamResultRouter()
+    flag = int(cfg["fb_dssr"]) if cfg.get("truthy_flags") else cfg["fb_dssr"]
+    ctor = cfg.get("ctor", "pos")
+    try:
+        if cfg["fallback"] and cfg["fb_dssr"] and cfg.get("omit_defaults"):
+            # do_start_stop_run defaults to True
+            router = StreamResultRouter(fallback=sinks[0]) if ctor == "kw" else StreamResultRouter(sinks[0])
+        elif cfg["fallback"]:
+            if ctor == "kw":
+                router = StreamResultRouter(fallback=sinks[0], do_start_stop_run=flag)
+            elif ctor == "pos2":
+                router = StreamResultRouter(sinks[0], flag)
+            else:
+                router = StreamResultRouter(sinks[0], do_start_stop_run=flag)
+        else:
+            router = StreamResultRouter()
+    except Exception as e:
+        # (a TypeError from argument binding has no frame inside the library: it must not end as a harness error)
+        return Case([V("construct", "raises-%s" % type(e).__name__, "StreamResultRouter(%s fallback, flag %r, spelling %r) raised %r" % (
+            "a" if cfg["fallback"] else "no", flag, ctor, e))], False, ["raised"])
     # model
     prefixes, ids = {}, {}
     dssr = [0] if cfg["fallback"] and cfg["fb_dssr"] else []
     want = [[] for _ in range(NSINK)]
+    optional = {}        # sink -> index in want[sink] of a (startTestRun, stopTestRun) pair that may be absent
     in_run = False
     both = multi = midrun = False
     model_fired = []
+
+    def model_status(exp):
+        """Route one event (as a Recorder snapshot) through the reference router; False = no destination."""
+        nonlocal both, multi
+        rc = exp["route_code"]
+        head = None if rc is None else rc.split("/")[0]
+        if head is not None and head in prefixes:
+            target, consume = prefixes[head]
+            if consume:
+                rest = rc.split("/")[1:]
+                exp = dict(exp, route_code="/".join(rest) if rest else None)
+                if rest:
+                    multi = True
+            if exp["test_id"] in ids:
+                both = True
+        elif exp["test_id"] in ids:
+            target = ids[exp["test_id"]]
+        elif cfg["fallback"]:
+            target = 0
+        else:
+            return False
+        want[target].append(("status", exp))
+        if target == 0 and re_cfg and re_cfg["when"] == "status" and not model_fired and exp["test_id"] == re_cfg["test_id"]:
+            # sink 0 registers the rule (started at once when a run is in progress) and resubmits what it received
+            model_fired.append(1)
+            ids[re_cfg["test_id"]] = re_cfg["sink"]
+            dssr.append(re_cfg["sink"])
+            if in_run:
+                want[re_cfg["sink"]].append(("startTestRun",))
+            model_status(exp)
+        return True
+
     for op in spec["ops"]:
         k = op["op"]
         if k in ("route", "id"):
             kw = {}
-            if op["dssr"] or op["explicit_dssr"]:
+            spell = op.get("spell", "kw")
+            if op["dssr"] or op["explicit_dssr"] or spell == "pos":
                 kw["do_start_stop_run"] = int(op["dssr"]) if cfg.get("truthy_flags") else op["dssr"]
             if k == "route":
-                if not op["consume"] and cfg.get("omit_defaults"):
-                    router.add_rule(sinks[op["sink"]], "route_code_prefix", route_prefix=op["prefix"], **kw)    # consume_route defaults to False
+                pa = {"route_prefix": op["prefix"]}
+                if op["consume"] or not cfg.get("omit_defaults"):         # consume_route defaults to False
+                    pa["consume_route"] = int(op["consume"]) if cfg.get("truthy_flags") else op["consume"]
+                policy = "route_code_prefix"
+            else:
+                pa = {"test_id": op["test_id"]}
+                policy = "test_id"
+            try:
+                if spell == "pos":
+                    router.add_rule(sinks[op["sink"]], policy, kw["do_start_stop_run"], **pa)
+                elif spell == "named":
+                    router.add_rule(sink=sinks[op["sink"]], policy=policy, **kw, **pa)
                 else:
-                    router.add_rule(sinks[op["sink"]], "route_code_prefix", route_prefix=op["prefix"],
-                                    consume_route=int(op["consume"]) if cfg.get("truthy_flags") else op["consume"], **kw)
+                    router.add_rule(sinks[op["sink"]], policy, **kw, **pa)
+            except Exception as e:
+                # the histories that follow are meaningless once a legal rule has been refused
+                return Case(vs + [V("add_rule", "raises-%s" % type(e).__name__, "add_rule(%r, %r, %r), spelled %r, raised %r" % (
+                    policy, kw, pa, spell, e))], False, ["raised"])
+            if k == "route":
                 prefixes[op["prefix"]] = (op["sink"], op["consume"])
             else:
-                router.add_rule(sinks[op["sink"]], "test_id", test_id=op["test_id"], **kw)
                 ids[op["test_id"]] = op["sink"]
             if op["dssr"]:
                 dssr.append(op["sink"])
@@ -160,7 +334,8 @@ def run_history(spec):
             if in_run:
                 midrun = True
         elif k == "bad_rule":
-            # a rule the router must reject: nothing about the run or the sink may change
+            # a rule the router must reject: nothing about the run or the sink may change (the class of the exception
+            # is not the property's business)
             try:
                 if op["how"] == "multi-step-prefix":
                     router.add_rule(sinks[op["sink"]], "route_code_prefix", do_start_stop_run=op["dssr"], route_prefix="0/1")
@@ -169,7 +344,7 @@ def run_history(spec):
                 else:
                     router.add_rule(sinks[op["sink"]], "test_id", do_start_stop_run=op["dssr"], route_prefix="0")
                 vs.append(V("add_rule", "invalid-accepted", "add_rule accepted an invalid rule (%s)" % op["how"]))
-            except (TypeError, ValueError):
+            except Exception:
                 pass
         elif k == "start":
             router.startTestRun()
@@ -188,10 +363,12 @@ def run_history(spec):
             for s in list(dssr):
                 want[s].append(("stopTestRun",))
                 if re_cfg and s == 0 and re_cfg["when"] == "stop" and not model_fired:
-                    # registered while the run is still in progress: started at once, and stopped with the run
+                    # registered while the run is being closed: either still part of this run (started at once, and
+                    # stopped with the run) or not (neither call) - see ASSUMPTIONS
                     model_fired.append(1)
                     ids[re_cfg["test_id"]] = re_cfg["sink"]
                     dssr.append(re_cfg["sink"])
+                    optional[re_cfg["sink"]] = len(want[re_cfg["sink"]])
                     want[re_cfg["sink"]].append(("startTestRun",))
                     want[re_cfg["sink"]].append(("stopTestRun",))
         else:
@@ -199,23 +376,6 @@ def run_history(spec):
             kw = streams.kwargs_of(ev)
             if op["omit_defaults"]:
                 kw = {f: v for f, v in kw.items() if v != DEFAULTS[f]}
-            exp = streams.norm_event(ev)
-            rc = ev["route_code"]
-            head = None if rc is None else rc.split("/")[0]
-            target = None
-            if head is not None and head in prefixes:
-                target, consume = prefixes[head]
-                if consume:
-                    rest = rc.split("/")[1:]
-                    exp["route_code"] = "/".join(rest) if rest else None
-                    if rest:
-                        multi = True
-                if ev["test_id"] in ids:
-                    both = True
-            elif ev["test_id"] in ids:
-                target = ids[ev["test_id"]]
-            elif cfg["fallback"]:
-                target = 0
             before = [len(s.events) for s in sinks]
             try:
                 npos = op.get("npos", 0)
@@ -228,22 +388,26 @@ def run_history(spec):
                 raised = None
             except Exception as e:
                 raised = e
-            if target is None:
+            if not model_status(streams.norm_event(ev)):
                 if raised is None:
                     vs.append(V("route", "no-destination-silent", "event %r has no destination and no fallback, yet status() returned" % (ev,)))
                 if [len(s.events) for s in sinks] != before:
                     vs.append(V("route", "no-destination-delivered", "event without destination was delivered somewhere"))
-            else:
-                if raised is not None:
-                    vs.append(V("route", "raises-%s" % type(raised).__name__, "status(%r) raised %r" % (ev, raised)))
-                want[target].append(("status", exp))
+            elif raised is not None:
+                vs.append(V("route", "raises-%s" % type(raised).__name__, "status(%r) raised %r" % (ev, raised)))
     for i, s in enumerate(sinks):
         got = s.events
-        if got != want[i]:
-            gk, wk = [e[0] for e in got], [e[0] for e in want[i]]
+        gk = [e[0] for e in got]
+        exp_i = want[i]
+        if i in optional:
+            alt = want[i][:optional[i]] + want[i][optional[i] + 2:]
+            if gk != [e[0] for e in exp_i] and gk == [e[0] for e in alt]:
+                exp_i = alt
+        if got != exp_i:
+            wk = [e[0] for e in exp_i]
             if gk != wk:
                 gs = sum(1 for e in got if e[0] == "status")
-                ws = sum(1 for e in want[i] if e[0] == "status")
+                ws = sum(1 for e in exp_i if e[0] == "status")
                 if gs != ws:
                     vs.append(V("route", "wrong-destination", "sink %d received %d status events, model routes %d to it (all sinks: got %r want %r)" % (
                         i, gs, ws, [sum(1 for e in x.events if e[0] == "status") for x in sinks],
@@ -251,29 +415,43 @@ def run_history(spec):
                 else:
                     vs.append(V("start-stop", "midrun" if midrun else "plain", "sink %d saw %r, model expects %r" % (i, gk, wk)))
             else:
-                for g, w in zip(got, want[i]):
+                for g, w in zip(got, exp_i):
                     if g != w:
                         f = [f for f in streams.FIELDS if g[1][f] != w[1][f]]
                         vs.append(V("fields", ",".join(f), "sink %d received %r, model expects %r" % (
                             i, {x: g[1][x] for x in f}, {x: w[1][x] for x in f})))
                         break
+        else:
+            for live, w in zip(s.live, [e[1] for e in exp_i if e[0] == "status"]):
+                f = strict_diff(live, w)
+                if f:
+                    vs.append(V("fields", "type:" + ",".join(f), "sink %d received %r, sent were %r" % (
+                        i, {x: live[x] for x in f}, {x: w[x] for x in f})))
+                    break
     nt = both or multi or midrun
     return Case(vs, nt, ["overlap" if both else "", "multi-seg-consume" if multi else "", "midrun-rule" if midrun else "",
                          "fallback" if cfg["fallback"] else "no-fallback"], {"counts": [len(s.events) for s in sinks]})
 
 
 # ---------------------------------------------------------------- queue o router = identity
+ROUND1 = st.fixed_dictionaries({"run": st.booleans(), "events": st.lists(EVENT, min_size=1, max_size=4)})
+ROUND2 = st.fixed_dictionaries({"run": st.booleans(), "events": st.lists(EVENT, min_size=1, max_size=2)})
+
+
 @st.composite
 def s_inverse(draw):
     codes = draw(st.lists(st.sampled_from(SEGS), min_size=1, max_size=3))
-    return {"codes": codes, "events": draw(st.lists(EVENT, min_size=1, max_size=5)),
-            "run": draw(st.booleans())}
+    rounds = [draw(ROUND1)]
+    if draw(st.integers(0, 2)) == 0:
+        rounds.append(draw(ROUND2))     # the same StreamToQueue objects are used again: a second run, or events after stopTestRun
+    return {"codes": codes, "rounds": rounds, "omit_defaults": draw(st.booleans())}
 
 
 def run_inverse(spec):
     from testtools.testresult.real import StreamResultRouter, StreamToQueue
     vs = []
     codes = spec["codes"]
+    rounds = spec.get("rounds") or [{"run": spec["run"], "events": spec["events"]}]
     final = streams.Recorder("final")
     # routers: outermost code is popped first
     target = final
@@ -282,50 +460,67 @@ def run_inverse(spec):
         r.add_rule(target, "route_code_prefix", route_prefix=code, consume_route=True, do_start_stop_run=True)
         target = r
     entry_router = target
-    queues = []
     qs = []
     for code in codes:
         q = queue_mod.Queue()
         qs.append((q, StreamToQueue(q, code)))
     # chain: events enter qs[0]; drained into qs[1] ...; last drained into entry_router
     first = qs[0][1]
-    if spec["run"]:
-        first.startTestRun()
-    for ev in spec["events"]:
-        first.status(**streams.kwargs_of(ev))
-    if spec["run"]:
-        first.stopTestRun()
-    for i, (q, s) in enumerate(qs):
-        nxt = qs[i + 1][1] if i + 1 < len(qs) else entry_router
-        while not q.empty():
-            item = dict(q.get())
-            kind = item.pop("event")
-            if kind == "status":
-                try:
-                    nxt.status(**item)
-                except Exception as e:
-                    vs.append(V("inverse", "raises-%s" % type(e).__name__, "router raised %r for %r" % (e, item)))
-                    return Case(vs, True, ["raised"])
-            else:
-                getattr(nxt, kind)()
-    want = [streams.norm_event(ev) for ev in spec["events"]]
+    sent = []
+    for rnd in rounds:
+        if rnd["run"]:
+            first.startTestRun()
+        for ev in rnd["events"]:
+            kw = streams.kwargs_of(ev)
+            if spec.get("omit_defaults"):
+                kw = {f: v for f, v in kw.items() if v != DEFAULTS[f]}
+            first.status(**kw)
+            sent.append(ev)
+        if rnd["run"]:
+            first.stopTestRun()
+        for i, (q, s) in enumerate(qs):
+            nxt = qs[i + 1][1] if i + 1 < len(qs) else entry_router
+            while not q.empty():
+                item = dict(q.get())
+                kind = item.pop("event")
+                if kind == "status":
+                    try:
+                        nxt.status(**item)
+                    except Exception as e:
+                        vs.append(V("inverse", "raises-%s" % type(e).__name__, "router raised %r for %r" % (e, item)))
+                        return Case(vs, True, ["raised"])
+                else:
+                    getattr(nxt, kind)()
+    want = [streams.norm_event(ev) for ev in sent]
     got = final.statuses()
     if len(got) != len(want):
         vs.append(V("inverse", "count", "%d events arrive, %d sent" % (len(got), len(want))))
     else:
-        for g, w in zip(got, want):
-            if g != w:
-                f = [f for f in streams.FIELDS if g[f] != w[f]]
+        for g, w, live in zip(got, want, final.live):
+            f = [f for f in streams.FIELDS if g[f] != w[f]]
+            if f:
                 vs.append(V("inverse", ",".join(f), "through codes %r: arrived %r, sent %r" % (
                     codes, {x: g[x] for x in f}, {x: w[x] for x in f})))
                 break
-    exp = 1 if spec["run"] else 0
+            f = strict_diff(live, w)
+            if f:
+                vs.append(V("inverse", "type:" + ",".join(f), "through codes %r: arrived %r, sent %r" % (
+                    codes, {x: live[x] for x in f}, {x: w[x] for x in f})))
+                break
+    exp = sum(1 for rnd in rounds if rnd["run"])
     starts = sum(1 for e in final.events if e[0] == "startTestRun")
     stops = sum(1 for e in final.events if e[0] == "stopTestRun")
     if (starts, stops) != (exp, exp):
         vs.append(V("inverse", "start-stop", "final sink saw %d/%d start/stop, expected %d" % (starts, stops, exp)))
-    nt = len(codes) >= 2 or any(e["route_code"] and "/" in e["route_code"] for e in spec["events"])
-    return Case(vs, nt, ["depth=%d" % len(codes)], {"routes": [g["route_code"] for g in got]})
+    nt = len(codes) >= 2 or any(e["route_code"] and "/" in e["route_code"] for e in sent)
+    return Case(vs, nt, ["depth=%d" % len(codes), "rounds=%d" % len(rounds)], {"routes": [g["route_code"] for g in got]})
+
+
+def _ev(tid=None, rc=None, **more):
+    ev = dict(test_id=tid, test_status="success", test_tags=None, runnable=True, route_code=rc,
+              timestamp=None, file_name=None, file_bytes=None, eof=False, mime_type=None)
+    ev.update(more)
+    return ev
 
 
 def _enum():
@@ -347,10 +542,86 @@ def _enum():
             r2b = None if r2 is None else dict(r2, sink=3 if same_kind else r2["sink"])
             for rc in routes:
                 for tid in ids:
-                    ev = dict(test_id=tid, test_status="success", test_tags=None, runnable=True, route_code=rc,
-                              timestamp=None, file_name=None, file_bytes=None, eof=False, mime_type=None)
-                    ops = [r for r in (r1, r2b) if r is not None] + [{"op": "ev", "ev": ev, "omit_defaults": True}]
+                    ops = [r for r in (r1, r2b) if r is not None] + [{"op": "ev", "ev": _ev(tid, rc), "omit_defaults": True}]
                     yield {"cfg": {"fallback": fb, "fb_dssr": True}, "ops": ops}
+
+
+def _enum_corners():
+    """Small exhaustive grids for the corners that random histories reach only now and then."""
+    START, STOP = {"op": "start"}, {"op": "stop"}
+
+    def evop(tid=None, rc=None, npos=0, omit=True, **more):
+        return {"op": "ev", "ev": _ev(tid, rc, **more), "omit_defaults": omit, "npos": npos}
+    # 1. the constructor: spelling x flag x flag given as 1/0 x flag omitted, over one run
+    for ctor in ("pos", "kw", "pos2"):
+        for fb_dssr in (True, False):
+            for truthy in (False, True):
+                for omit in (False, True):
+                    yield {"cfg": {"fallback": True, "fb_dssr": fb_dssr, "truthy_flags": truthy, "omit_defaults": omit,
+                                   "ctor": ctor}, "ops": [START, evop("a"), STOP]}
+    # 2. add_rule: spelling x flag x flag explicit x 1/0 x rule kind x before / during the run
+    for spell in ("kw", "pos", "named"):
+        for dssr in (True, False):
+            for explicit in (True, False):
+                for truthy in (False, True):
+                    for kind in ("route", "id"):
+                        for mid in (False, True):
+                            rule = {"op": kind, "sink": 1, "dssr": dssr, "explicit_dssr": explicit, "spell": spell}
+                            rule.update({"prefix": "0", "consume": True} if kind == "route" else {"test_id": "a"})
+                            ops = ([START, rule] if mid else [rule, START]) + [evop("a", "0/1"), STOP]
+                            yield {"cfg": {"fallback": True, "fb_dssr": False, "truthy_flags": truthy}, "ops": ops}
+    # 3. the route code given positionally x consuming rule (x the flag as 1/0)
+    for consume in (False, True):
+        for truthy in (False, True):
+            for npos in (0, 8, 9, 10):
+                for rc in ("0", "0/1", "0/0/1"):
+                    for stamp in (None, "naive"):
+                        yield {"cfg": {"fallback": False, "fb_dssr": True, "truthy_flags": truthy},
+                               "ops": [{"op": "route", "prefix": "0", "consume": consume, "sink": 1, "dssr": False,
+                                        "explicit_dssr": False},
+                                       evop("a", rc, npos, False, timestamp=stamp, test_tags=["t"], runnable=False)]}
+    # 4. segments: a rule must match its own prefix exactly - not its case, blank, accent or wildcard neighbours
+    for p in ("W1", "a.b", "x", "é", "worker-1", "0"):
+        heads = []
+        for h in (p, NEIGHBOUR[p], p.lower(), p.upper(), " " + p, p + " ", p + p):
+            if h not in heads:
+                heads.append(h)
+        for consume in (False, True):
+            for h in heads:
+                for tail in ("", "/0"):
+                    yield {"cfg": {"fallback": True, "fb_dssr": True},
+                           "ops": [{"op": "route", "prefix": p, "consume": consume, "sink": 1, "dssr": False,
+                                    "explicit_dssr": False}, evop("a", h + tail)]}
+    # 5. test ids: exact match only (no dotted children), and an id never acts as a prefix or the other way round
+    for rid in (None, "a", "0", "a.b"):
+        for pr in (None, "0", "a.b"):
+            rules = [{"op": "id", "test_id": rid, "sink": 2, "dssr": False, "explicit_dssr": False}]
+            if pr is not None:
+                rules.append({"op": "route", "prefix": pr, "consume": True, "sink": 1, "dssr": False, "explicit_dssr": False})
+            for tid in (None, "a", "a.b", "0", "a.b.c", "A"):
+                for rc in (None, "0", "0/1", "a", "a.b", "a.b/0"):
+                    for fb in (True, False):
+                        yield {"cfg": {"fallback": fb, "fb_dssr": True}, "ops": rules + [evop(tid, rc)]}
+    # 6. a sink that registers a rule from inside its own startTestRun / stopTestRun / status: the rule is routed to
+    for when in ("start", "stop", "status"):
+        for equal in (False, True):
+            for pre in ([], [{"op": "route", "prefix": "0", "consume": True, "sink": 0, "dssr": False, "explicit_dssr": False}]):
+                re = {"when": when, "sink": 3, "test_id": RE_ID}
+                ops = pre + [evop(RE_ID, "0/1"), START, evop(RE_ID, "0/x"), evop(RE_ID), evop(RE_ID, "1"), STOP,
+                             evop(RE_ID), START, evop(RE_ID, "0"), STOP]
+                yield {"cfg": {"fallback": True, "fb_dssr": True, "equal_sinks": equal, "reentrant": re}, "ops": ops}
+                yield {"cfg": {"fallback": True, "fb_dssr": True, "equal_sinks": equal, "reentrant": re}, "ops": ops[1 + len(pre):]}
+
+
+def _enum_inverse():
+    """StreamToQueue used again: two runs, events after stopTestRun, omitted defaults, odd timestamps."""
+    for codes in (["0"], ["W1", "a.b"], ["0", "0", "01"]):
+        for r1, r2 in itertools.product((False, True), repeat=2):
+            for omit in (False, True):
+                for stamp in (None, "naive", "tz", "usec"):
+                    yield {"codes": codes, "omit_defaults": omit,
+                           "rounds": [{"run": r1, "events": [_ev("a", None, timestamp=stamp), _ev(None, "0/1", test_tags=["t"])]},
+                                      {"run": r2, "events": [_ev("late", "0", timestamp=stamp, runnable=False)]}]}
 
 
 def subchecks(tier):
@@ -360,4 +631,9 @@ def subchecks(tier):
         Sub("queue_router_inverse", run_inverse, s_inverse(), 1200 if q else 60000),
         Sub("enumerated_rules_x_events", run_history, enum=_enum, enum_complete=True,
             note="every pair of <=2 rules from a 7-rule alphabet x 10 route codes x 3 test ids x fallback on/off"),
+        Sub("enumerated_corners", run_history, enum=_enum_corners, enum_complete=True,
+            note="constructor and add_rule spellings x flag values; positional route code x consuming rule; neighbour "
+                 "segments and ids of a rule; rules registered re-entrantly from a sink"),
+        Sub("enumerated_queue_reuse", run_inverse, enum=_enum_inverse, enum_complete=True,
+            note="1..3 nested StreamToQueue used for two rounds (run or no run) x omitted defaults x timestamp kinds"),
     ]
